@@ -17,7 +17,7 @@ subprocess.run(["git", "-C", "/repo", "worktree", "add", "-q", "--detach", wt, "
 rec = {"seed_id": sid, "confirmed_at_repo_commit": subprocess.run(["git", "-C", "/repo", "rev-parse", "--short", "HEAD"], capture_output=True, text=True).stdout.strip()}
 try:
     shutil.copytree("/repo/sigpyproc.egg-info", os.path.join(wt, "sigpyproc.egg-info"))
-    env = dict(os.environ, PYTHONPATH=wt, NUMBA_CACHE_DIR=os.path.join(wt, ".nbcache"), NUMBA_NUM_THREADS="4")
+    env = dict(os.environ, PYTHONPATH=wt, NUMBA_CACHE_DIR=os.path.join(wt, ".nbcache"), NUMBA_NUM_THREADS=os.environ.get("CONFIRM_THREADS", "4"))
     def run_demo():
         r = subprocess.run(["/venv/bin/python", demo], env=env, cwd=wt, capture_output=True, text=True, timeout=1800)
         return r.returncode, (r.stdout + r.stderr)[-600:]
